@@ -533,6 +533,8 @@ class MergeFlow(Engine):
                 and any(f.func is not None and f.func.name == '__add__' for f in st.frames) \
                 and not any(f.func is not None and f.func.name == 'merge' for f in st.frames):
             self.guard_tags.add(tag)
+            if result is not None:
+                st.mon['guard_present'] = tuple(sorted(set(st.mon.get('guard_present') or ()) | {tag}))
         if path or not isinstance(tag, str) or tag not in schema.ID_TAGS:
             return
         pe: ElemE = st.get(parent.sym)
@@ -640,9 +642,7 @@ class MergeFlow(Engine):
                'rootops': list(s.mon.get('rootops') or ())}
         self.outcomes.append(rec)
         # completion guard: which guard tags were present at entry on this path?
-        present = [t for t in self.guard_tags if isinstance(self.ro_root, Ref) and isinstance(s.first.get((self.ro_root.sym, t)), int)
-                   and s.first.get((self.ro_root.sym, t)) in s.heap and s.get(s.first[(self.ro_root.sym, t)]).prov == 'RO']
-        rec['guard_present'] = present
+        rec['guard_present'] = list(s.mon.get('guard_present') or ())
         evs = [e.kind for e in s.events() if e.kind in ('lookup', 'remove', 'insert', 'append', 'setitem', 'newchild', 'warn', 'copy')]
         rec['effects'] = sorted(set(evs))
         if not isinstance(v, Raise) and isinstance(ro, Ref):
